@@ -34,7 +34,28 @@ def host_main(h, spec):
         cfg.logging_config["loggers"][k]["level"] = "CRITICAL"
     shm_api.publish_client_port(h["shm_port"])
     ctx = get_context("fork")
-    shm_p = ctx.Process(target=shm_server, args=(h["shm_port"], 64 * 1024 * 1024, cfg.logging_config, f"sCasc{h['id']}"))
+    slow = (spec.get("slow_shm") or {}) if (spec.get("slow_shm") or {}).get("host") == h.get("index") else {}
+
+    def shm_main():
+        if slow:
+            # injected delay: this shm server answers its n-th AllocateRequest `delay` real seconds late (a busy store, not a lost
+            # datagram); clients must cope with an answer that is merely slow
+            import cascade.shm.api as api_
+            import cascade.shm.server as srv
+            real_respond = srv.LocalServer.respond
+            seen = [0]
+
+            def respond(self, comm, address):
+                if isinstance(comm, api_.AllocateResponse):
+                    seen[0] += 1
+                    if seen[0] == slow["nth_allocate"]:
+                        with open(os.path.join(spec["tmp"], f"faults-{h['id']}.log"), "a") as f_:
+                            f_.write("shm-answer-delayed\n")
+                        time.sleep(slow["delay"])
+                return real_respond(self, comm, address)
+            srv.LocalServer.respond = respond
+        shm_server(h["shm_port"], 64 * 1024 * 1024, cfg.logging_config, f"sCasc{h['id']}")
+    shm_p = ctx.Process(target=shm_main)
     shm_p.start()
     shm_client.ensure()
     rng = random.Random(f"{spec['seed']}/{h.get('index', h['id'])}")   # by host index: host ids depend on the port block
